@@ -13,6 +13,38 @@ Definition allowed_model (sig_ok : bytes -> bytes -> bytes -> bool)
   | None => None
   end.
 
+(* The same check when the UserIDForSender callback answers (nil, nil) -- instead of an error --
+   for a sender it cannot resolve (the callers' pseudo-ID queriers do): every place that asks
+   the callback then refuses with a NotAllowed error. The remaining other-class errors are: the
+   provider could not be built, an mxid_mapping whose user_id is not a user ID (spec.NewUserID),
+   and a creator named in a version-12 power-levels event. *)
+Definition nil_querier_verdict (a : auth_input) (v : verdict) : verdict :=
+  match v with
+  | VErr =>
+      if negb (ai_provider_ok a) then VErr
+      else match ai_kind a with
+           | KMember =>
+               match ai_new_member a with
+               | Some m => match m_mapping m with Some None => VErr | _ => VNotAllowed end
+               | None => VNotAllowed
+               end
+           | KPowerLevels =>
+               match ai_sender_domain a with
+               | None => VNotAllowed
+               | Some _ => if ai_new_pl_users_ok a then VErr else VNotAllowed
+               end
+           | _ => VNotAllowed
+           end
+  | _ => v
+  end.
+
+Definition allowed_model_nilq (sig_ok : bytes -> bytes -> bytes -> bool)
+           (ver : bytes) (e : json) (auths : list json) : option verdict :=
+  match flags_of_version ver with
+  | Some f => let a := abs sig_ok f e auths in Some (nil_querier_verdict a (decide_model a))
+  | None => None
+  end.
+
 (* no third-party-invite signature ever verifies (enough for callers that never build such invites) *)
 Definition no_sig : bytes -> bytes -> bytes -> bool := fun _ _ _ => false.
 
